@@ -3,22 +3,35 @@
    spec: Emu/ThreadSpecDefs.v (fsm, spec_step).  Proofs: Proofs/ThreadCpuProofs.v, Proofs/EmuCoreWf.v. *)
 From Coq Require Import ZArith List Bool.
 From OV Require Import Emu.EmuCoreDefs Emu.ThreadSpecDefs Proofs.EmitProofs Proofs.EmuCoreProofs
-  Proofs.ThreadCpuProofs Proofs.EmuCoreWf.
+  Proofs.ThreadCpuProofs Proofs.EmuCoreWf Proofs.TotalProofs.
 Import ListNotations.
 Local Open Scope Z_scope.
 
-(* FULL STATEMENT (kept visible): for every history h over execute/pause/resume/cool/warm/end (and the
-   affinity events) on any number of threads and CPUs, the emulator accepts h  <->  every event is a legal
-   transition of the documented machine, every thread is dead at the end and no physical CPU is ever
-   oversubscribed.
-   PROVED below for the event handlers with their per-CPU thread lists (emu_accepts runs oh_step and the
-   end-of-trace check).  Named _partial because acceptance by the complete model also requires that
-   the PRV emission does not fail on such histories; that part (no duplicate/zero refusals for the
-   system channels) is validated by the end-to-end correspondence and not yet a theorem. *)
-Theorem C04_accepted_iff_documented_machine_partial : forall sx h,
+(* for every history h over execute/pause/resume/cool/warm/end (and the affinity events) on any number of threads
+   and CPUs, with any subset of models enabled, the emulator - handlers, channel propagation and PRV writer - accepts h
+   <->  every event is a legal transition of the documented machine, every thread is dead at the end and no
+   physical CPU is ever oversubscribed.  OhStatic: thread and process ids are non-zero (the loader demands it) and
+   the PRV flags of the model channels let a repeated value through (C04_side_conditions_hold: true of the specs
+   of the current source for all 256 subsets of models). *)
+Theorem C04_accepted_iff_documented_machine : forall sx lint h,
+  types_ok sx -> any_init_ok sx -> OhStatic sx ->
+  is_ok (run sx lint (oh_events h)) = spec_accepts sx (untimed h).
+Proof. exact run_accepts_iff_spec. Qed.
+Print Assumptions C04_accepted_iff_documented_machine.
+
+(* the same at the level of the event handlers with their per-CPU thread lists *)
+Theorem C04_handlers_iff_documented_machine : forall sx h,
   emu_accepts sx h = spec_accepts sx h.
 Proof. exact emu_accepts_iff_spec. Qed.
-Print Assumptions C04_accepted_iff_documented_machine_partial.
+Print Assumptions C04_handlers_iff_documented_machine.
+
+(* the PRV layer never refuses what the handlers accept (from any reachable state of such a history) *)
+Theorem C04_prv_never_refuses : forall sx st ls who e st1,
+  wf_keys sx -> OhStatic sx -> Inv sx st ls -> RawInit sx st ->
+  oh_step sx st who e = Ok st1 ->
+  exists res, emit_all (prv_last st1) (all_reqs sx st st1 []) = Ok res.
+Proof. exact oh_emit_total. Qed.
+Print Assumptions C04_prv_never_refuses.
 
 (* one step: same verdict and same (state, CPU) of every thread, and the bookkeeping stays consistent *)
 Theorem C04_step_simulation : forall sx st who e,
@@ -48,8 +61,9 @@ Print Assumptions C04_timeline.
 
 (* the side conditions hold for the channel specs of every subset of the models in the source *)
 Theorem C04_side_conditions_hold :
-  forallb (fun en => types_okb (DecodeDefs.mk_chans en) && any_init_okb (DecodeDefs.mk_chans en)) (sublists all_models) = true.
-Proof. exact dumped_specs_ok. Qed.
+  forallb (fun en => types_okb (DecodeDefs.mk_chans en) && any_init_okb (DecodeDefs.mk_chans en)) (sublists all_models) = true /\
+  forallb (fun en => forallb spec_safeb (DecodeDefs.mk_chans en)) (sublists all_models) = true.
+Proof. exact (conj dumped_specs_ok dumped_specs_safe). Qed.
 Print Assumptions C04_side_conditions_hold.
 
 (* non-vacuity: a two-thread history that is accepted, one that oversubscribes, one with an illegal transition *)
@@ -65,3 +79,10 @@ Example C04_ex_oversub : emu_accepts sx2 [(0%nat, Execute 0); (1%nat, Execute 0)
 Proof. vm_compute. reflexivity. Qed.
 Example C04_ex_illegal : spec_accepts sx2 [(0%nat, Execute 0); (0%nat, Warm)] = false.
 Proof. vm_compute. reflexivity. Qed.
+
+(* the hypotheses of the main theorem are satisfiable: two threads, the base model and nOS-V enabled *)
+Definition sx3 : static :=
+  {| s_threads := s_threads sx2; s_cpus := s_cpus sx2; s_chans := DecodeDefs.mk_chans [DecodeDefs.M_OVNI; DecodeDefs.M_NOSV]; s_lint := true |}.
+Example C04_ex_hyps : types_okb (s_chans sx3) = true /\ any_init_okb (s_chans sx3) = true /\ forallb spec_safeb (s_chans sx3) = true /\
+  is_ok (run sx3 [] (oh_events [(1, 0%nat, Execute 0); (2, 1%nat, Execute (-1)); (3, 0%nat, Cool); (4, 0%nat, End_); (5, 1%nat, End_)])) = true.
+Proof. vm_compute. repeat split. Qed.
